@@ -143,17 +143,15 @@ where
     }
     // failing loads leave nothing behind: wrong type, corrupted header, truncated files
     let mut fails = vec![];
-    let mut fail_with = |label: &str, bytes: &[u8], fails: &mut Vec<String>| {
-        let p2 = dir.join("bad.bin");
-        let _ = std::fs::write(&p2, bytes);
+    let fail_path = |label: &str, p2: &std::path::Path, fails: &mut Vec<String>| {
         for (name, which) in [("full", 3), ("mem", 0), ("lmmap", 1), ("mmap", 2)] {
             let before = (live(), maps(), fds());
             let r = catch_unwind(AssertUnwindSafe(|| -> Result<(), &'static str> {
                 match which {
-                    3 => { D::load_full(&p2).map_err(|e| anyhow_class(&e))?; }
-                    0 => { D::load_mem(&p2).map_err(|e| anyhow_class(&e))?; }
-                    1 => { D::load_mmap(&p2, Flags::empty()).map_err(|e| anyhow_class(&e))?; }
-                    _ => { D::mmap(&p2, Flags::empty()).map_err(|e| anyhow_class(&e))?; }
+                    3 => { D::load_full(p2).map_err(|e| anyhow_class(&e))?; }
+                    0 => { D::load_mem(p2).map_err(|e| anyhow_class(&e))?; }
+                    1 => { D::load_mmap(p2, Flags::empty()).map_err(|e| anyhow_class(&e))?; }
+                    _ => { D::mmap(p2, Flags::empty()).map_err(|e| anyhow_class(&e))?; }
                 }
                 Ok(())
             }));
@@ -163,6 +161,11 @@ where
             let leak = if after == before { "".to_string() } else { format!("|LEAK({};{};{};{})", (after.0).0 - (before.0).0, (after.0).1 - (before.0).1, after.1 as isize - before.1 as isize, after.2 as isize - before.2 as isize) };
             fails.push(format!("{}.{}={}{}", label, name, res, leak));
         }
+    };
+    let fail_with = |label: &str, bytes: &[u8], fails: &mut Vec<String>| {
+        let p2 = dir.join("bad.bin");
+        let _ = std::fs::write(&p2, bytes);
+        fail_path(label, &p2, fails);
     };
     let mut wrong = reference.clone();
     wrong[14] ^= 0x40; // another type hash: a file of a different type
@@ -175,6 +178,12 @@ where
             fail_with(&format!("cut{}", k), &reference[..k], &mut fails);
         }
     }
+    // a path that can be opened and reports a length but cannot be read (a directory), and a
+    // path that does not exist: the loaders fail while acquiring or filling the backing memory
+    let sub = dir.join("subdir");
+    let _ = std::fs::create_dir_all(sub.join("inner"));
+    fail_path("isdir", &sub, &mut fails);
+    fail_path("missing", &dir.join("no-such-file.bin"), &mut fails);
     let _ = std::fs::remove_dir_all(&dir);
     out.push_str(&format!("{} load {} fails={}\n", cid, parts.join(" "), fails.join(",")));
     let _ = hex(&[]);
